@@ -1,1 +1,1 @@
-MODULES = ["runtime_status", "container", "container_gen", "pool", "dag", "sched_naive"]
+MODULES = ["runtime_status", "container", "container_gen", "pool", "dag", "sched_naive", "sched_overbook"]
